@@ -180,7 +180,8 @@ def rate(ctx, P, view):
             facts = {}
             in_body = any(child is y or any(child is z for z in ast.walk(y)) for y in p.body)
             guards.assume(f, in_body, facts)
-            okg = facts.get(("lt", "0", "self.last_occupancy")) is True
+            # (`>= 0` is the same guard: with last_occupancy == 0 nobody was in service, so every period credited is 0)
+            okg = facts.get(("lt", "0", "self.last_occupancy")) is True or facts.get(("lt", "self.last_occupancy", "0")) is False
         if not okg:
             problems.append(("progress-guard", "work is credited iff last_occupancy > 0 (else 0)"))
     # projection
